@@ -54,6 +54,7 @@ def main():
     seeded = "--seeded" in args
     only = args[args.index("--only") + 1] if "--only" in args else None
     skip = args[args.index("--skip") + 1] if "--skip" in args else None  # names containing this text are left out
+    prefix = args[args.index("--prefix") + 1] if "--prefix" in args else None  # only names starting with this text
     if seeded:
         root = os.path.join(VERIF, "seeded")
         items = {}
@@ -76,7 +77,7 @@ def main():
     results = {}
     ok_all = True
     for name, m in items.items():
-        if (only and only not in name) or (skip and skip in name):
+        if (only and only not in name) or (skip and skip in name) or (prefix and not name.startswith(prefix)):
             continue
         a = run(["git", "-C", REPO, "apply", m["patch"]])
         if a.returncode != 0:
@@ -123,7 +124,7 @@ def main():
             for fld in ("baseline_passed", "baseline_failed", "survives_suite", "doctests_failed"):
                 if fld in prev.get(k, {}) and fld not in rec:
                     rec[fld] = prev[k][fld]
-    if not only and not skip:
+    if not only and not skip and not prefix:
         prev = {k: v for k, v in prev.items() if k in results}
     prev.update(results)
     with open(out, "w", encoding="utf-8") as f:
